@@ -355,6 +355,7 @@ func propC17(w *World, r *Report) {
 	}
 	RunBigEndian(w, r, func(p string) bool { return p == pk.Pkg.Path() })
 	RunNarrowArith(w, r, methods)
+	RunControl(r, "narrowarith", "ctlNarrowArith", RunNarrowArith)
 	ef := &errflow{w: w, r: r}
 	ef.computeIOErr()
 	ef.RunErrDrop(methods)
